@@ -175,7 +175,9 @@ def bad_values(draw, t):
         return draw(st.sampled_from([([False] * m, "bitlen"), (None, "none"), (5, "nonseq")]))
     if k in R.STR_PREFIX or k == "fixedstr":
         opts = [(None, "none"), (5, "int"), (["a", "b"], "list")]
-        if k != "STRING2":
+        if k == "fixedstr":
+            opts.append(("Āb", "unencodable"))   # first character: over-long values are truncated to the capacity before encoding
+        elif k != "STRING2":
             opts.append(("abĀ", "unencodable"))
         if k == "SHORT_STRING":
             opts.append(("x" * 256, "prefix-overflow"))
